@@ -203,6 +203,7 @@ struct IVal
   virtual ~IVal() {}
   virtual void assign(int x) = 0;
   virtual void assignZero() = 0;
+  virtual std::string assignFail(int x) = 0;
   virtual bool update() = 0;
   virtual std::string get(bool byRef) = 0;
 };
@@ -226,6 +227,20 @@ struct ValImpl : IVal
   // the value-initialised payload (0 / empty string / empty vector): equal to what a moved-from or default-constructed
   // payload looks like, but still an assignment the consumer must receive
   void assignZero() override { *v = T(); }
+  // an assignment during which the payload's copy fails (bad_alloc out of the payload's copy assignment): nothing was
+  // assigned, so the consumer must neither be told of a new value nor lose the one it has. Only for the payload whose
+  // copy assignment is certain to allocate (Slow); strings and vectors may reuse their capacity.
+  std::string assignFail(int x) override
+  {
+    if (!std::is_same<T, Slow>::value)
+      return "bad-op";
+    const T t = Pay<T>::make(0, x);
+    bool threw = false;
+    vh::failAllocIn = 1;
+    try { *v = t; } catch (const std::bad_alloc &) { threw = true; }
+    vh::failAllocIn = 0;
+    return threw ? "bad_alloc" : "nofail";
+  }
   bool update() override
   {
     bool r = v->update();
@@ -515,6 +530,10 @@ int main()
       if (!V) return "bad-op";
       V->assign(int(vh::to_ll(w[1])));
       return "ok";
+    }
+    if (op == "assign_fail" && w.size() == 2) {
+      if (!V) return "bad-op";
+      return V->assignFail(int(vh::to_ll(w[1])));
     }
     if (op == "assignz") {
       if (!V) return "bad-op";
